@@ -117,8 +117,32 @@ ASSUME_SK = ASSUME_CODEC + ["AES, HMAC-MD5/SHA1/SHA256 are uninterpreted in the 
                             "HMAC collisions and IV repetitions are treated as never happening"]
 
 
+def gen_session(prop):
+    """Whole sessions (Session.tla): key establishment on what reached each end, the protected exchanges of a script with an adversary
+    on the wire, Child SAs, the EAP-AKA' codes -- on key objects the library derived itself."""
+    return dict(module="Gen_Session", name="session", trace=False, invariants=("Sound", "Emit"), timeout=3000,
+                constants=dict(ScriptNo=lambda ctx: 3 if ctx.thorough else 2, MaxAdv=1, MaxExtra=1, PropId='"%s"' % prop,
+                               Stride=lambda ctx: 12 if ctx.thorough else 16))
+
+
+def mc_session(name, script, adv, extra, dirc=True, midc=True, expect="hold"):
+    return dict(module="Session", name=name, expect=expect, view="View",
+                constants=dict(ScriptNo=script, MaxAdv=adv, MaxExtra=extra, DirCheck=dirc, MidCheck=midc),
+                invariants=("Authentic", "KeysAgreeIffUntampered", "NothingUnderDisagreement", "LockStep", "ChildrenAgree"),
+                what="one session between two library users with an adversary on the wire: acceptance only of what the peer sent under equal keys, "
+                     "equal keys iff IKE_SA_INIT arrived as sent, lock step of the exchanges, equal Child SAs"
+                     + ("" if expect == "hold" else " -- sanity: with this mechanism removed TLC must find a counterexample"))
+
+
+MC_SESSION = [lambda ctx: mc_session("session", 2, 2 if ctx.thorough else 1, 2 if ctx.thorough else 1),
+              lambda ctx: mc_session("session_knob_DirCheck", 2, 1, 1, dirc=False, expect="violate"),
+              lambda ctx: mc_session("session_knob_MidCheck", 2, 1, 1, midc=False, expect="violate")]
+
+
 def run_c01(ctx, C):
-    codec_common(ctx, C, [GEN_SK, gen_hist("C01"), gen_hist("C01", long=True)], [], mcs=[MC_SK, mc_sk_knob("PeerKeys")], traces=("Trace_SK",))
+    for m in MC_SESSION:
+        C.stage_mc(ctx, m(ctx))
+    codec_common(ctx, C, [GEN_SK, gen_hist("C01"), gen_hist("C01", long=True), gen_session("C01")], [], mcs=[MC_SK, mc_sk_knob("PeerKeys")], traces=("Trace_SK",))
 
 
 GEN_ADV = dict(module="Gen_Adversary", name="adversary")
@@ -157,7 +181,7 @@ KEY_AGREEMENT_KINDS = '{"dh", "new_ike_sa", "ike_derive", "keys_stress"}'
 
 
 def run_c07(ctx, C):
-    codec_common(ctx, C, [GEN_KEYS, gen_obj("ikesa", "C07")], [], mcs=[MC_SALIFE, MC_OBJ, MC_OBJ_KNOB], traces=())
+    codec_common(ctx, C, [GEN_KEYS, gen_obj("ikesa", "C07"), gen_session("C07")], [], mcs=[MC_SALIFE, MC_OBJ, MC_OBJ_KNOB], traces=())
     # "initiator and responder end up with identical SAs" also when several key agreements run at the same time
     C.stage_race(ctx, dict(module="Gen_Schedules", name="keysets", prop="C07", constants=dict(Focus=KEY_AGREEMENT_KINDS)))
 
